@@ -81,7 +81,7 @@ func evaluate(c *run.Case, t tally, sc *scenario, top *consumer, obs []leafObs, 
 			o := &obs[i]
 			fmt.Fprintf(&sb, "\n    %s %v -> ok=%v err=%v delivered=%s resumed=%v", o.path, o.cons, o.ok, o.err, showBytes(o.delivered), o.resumed)
 		}
-		c.Violation(ctorNames[sc.ctor]+"."+path+":"+class, "%s\n  scenario: %v\n  digest: %s\n  consumer: %v\n  observed:%s\n  integrity callback: %d positive, %d negative; source closed %d times",
+		c.Violation(sc.sigCtor()+"."+path+":"+class, "%s\n  scenario: %v\n  digest: %s\n  consumer: %v\n  observed:%s\n  integrity callback: %d positive, %d negative; source closed %d times",
 			fmt.Sprintf(format, a...), sc, sc.d.String(), top, sb.String(), v.pos.Load(), v.neg.Load(), st.closes.Load())
 	}
 
@@ -103,10 +103,14 @@ func evaluate(c *run.Case, t tally, sc *scenario, top *consumer, obs []leafObs, 
 			continue
 		}
 		t["leaf_"+o.cons.op]++
-		if strings.HasPrefix(o.path, opCloneStream) {
+		if strings.Contains(o.path, opCloneStream+">") {
 			t["clone_stream_leaves"]++
-		} else if strings.HasPrefix(o.path, opCloneCopy) {
+		} else if strings.Contains(o.path, opCloneCopy+">") {
 			t["clone_copy_leaves"]++
+		}
+		if o.decorated {
+			t["decorated_leaves"]++
+			t["decorated_leaf_"+o.cons.op]++
 		}
 		if o.cons.op == opDiscard {
 			continue
@@ -125,6 +129,9 @@ func evaluate(c *run.Case, t tally, sc *scenario, top *consumer, obs []leafObs, 
 			switch {
 			case o.ok:
 				t["match_completed"]++
+				if o.decorated {
+					t["decorated_match_completed"]++
+				}
 				if sc.ioErr != nil {
 					t["match_completed_despite_io_error"]++
 				}
@@ -139,6 +146,10 @@ func evaluate(c *run.Case, t tally, sc *scenario, top *consumer, obs []leafObs, 
 						viol(o.path, "wrong-bytes-on-success", "ToProto succeeded with a message that is not the content's")
 					}
 				}
+			case o.taskErr && isTaskErr(o.err):
+				// A decoration's background task failed and the consumer was
+				// told so. Which error prevails and when is C15's business.
+				t["task_error_received"]++
 			case sc.ioErr != nil:
 				// The source failed: its error is passed through.
 				if isSrcErr(o.err, sc.ioErr) {
@@ -179,8 +190,20 @@ func evaluate(c *run.Case, t tally, sc *scenario, top *consumer, obs []leafObs, 
 			continue
 		}
 		t["mismatch_rejected"]++
+		if o.decorated {
+			t["decorated_mismatch_rejected"]++
+		}
+		if sc.attempt > 0 {
+			t["reread_mismatch_rejected"]++
+		}
 		code := status.Code(o.err)
 		switch {
+		case o.taskErr && isTaskErr(o.err):
+			// The statement's error-code clause does not know about background
+			// tasks; a failed task's error in place of the mismatch error is
+			// recorded, not flagged (C15 owns it). Completion and withholding
+			// are still asserted.
+			t["task_error_received_on_mismatch"]++
 		case sc.ioErr != nil && isSrcErr(o.err, sc.ioErr):
 			t["io_error_passed_through"]++
 		case code == sc.expectedCode():
